@@ -113,6 +113,47 @@ def r1_min_aligned(ctx, P, D, R="C10.R1"):
     ctx.floor(R, "written position values checked for min-alignment", n, 28)
 
 
+def r1d_aligner_direction(ctx, P, D, R="C10.R1d"):
+    ctx.rule(R, "a position value is rounded towards the free side: up-aligners only where S::UP is known true, down-aligners only "
+                "where it is known false, direction-generic code goes through align_pos(S::UP, ..); rounding the other way moves "
+                "the position into the block that was just handed out (or the neighbouring live one)")
+    from .c13 import setting_pred
+    n = 0
+    for pw in D.sites:
+        b = pw.body
+        up_t, up_f = b.cond_edges(setting_pred("UP"))
+        for k, (cls, detail) in enumerate(c01.classify_value(D, pw)):
+            if cls != "aligner":
+                continue
+            nm = detail[0]
+            n += 1
+            if nm.startswith("align_pos"):
+                ctx.inst(R, b.path, True, f"{pw.callee_name}: direction-generic align_pos", where=b.where(pw.site),
+                         site=f"{pw.callee_name}#{c01.site_ordinal(D, pw)} alt{k} direction", nontrivial=False)
+                continue
+            want_up = nm.startswith("up_")
+            in_up = b.controlled_by(pw.site, up_t, cleanup=False)
+            in_dn = b.controlled_by(pw.site, up_f, cleanup=False)
+            # the aligner call itself may sit in an UP arm although the write is shared by both arms
+            if not (in_up or in_dn):
+                als = [s_ for s_, t in b.calls() if t["f"].get("name") == nm and b.can_reach(s_, pw.site, cleanup=False)]
+                if als and all(b.controlled_by(s_, up_t, cleanup=False) for s_ in als):
+                    in_up = True
+                elif als and all(b.controlled_by(s_, up_f, cleanup=False) for s_ in als):
+                    in_dn = True
+            in_family = b.id in D.family
+            ok = (want_up and in_up) or (not want_up and in_dn) or (in_family and not (in_up or in_dn) and False)
+            if not (in_up or in_dn) and in_family:
+                # inside the writer family the direction is the caller's business only for align_pos; anything else is checked here
+                ok = False
+            ctx.inst(R, b.path, ok, f"{pw.callee_name}: `{nm}` under S::UP == {'true' if in_up else 'false'}" if ok else
+                     f"{pw.callee_name}: the position is rounded with `{nm}` " + ("where S::UP is " + ("true" if in_up else "false") if (in_up or in_dn)
+                     else "regardless of the bump direction") + f": when bumping {'downwards' if want_up else 'upwards'} this rounds into "
+                     "allocated memory - the next allocation overlaps the block that was just returned", where=b.where(pw.site),
+                     site=f"{pw.callee_name}#{c01.site_ordinal(D, pw)} alt{k} direction")
+    ctx.floor(R, "aligned position writes checked for direction", n, 6)
+
+
 def r1c_aligner_forms(ctx, P):
     R = "C10.R1c"
     ctx.rule(R, "aligner helpers have their canonical form: up = (x + (a-1)) & !(a-1), down = x & !(a-1); align_pos "
@@ -469,8 +510,11 @@ def run(ctx, progs):
         r1_min_aligned(ctx, P, D)
         r1c_aligner_forms(ctx, P)
         c01.r6r7_primitives(ctx, P, R6="C10.R1b", R7="C10.R1b")
+        r1d_aligner_direction(ctx, P, D)
         r2r3_accounting(ctx, P)
         r3b_erased_header_arith(ctx, P)
         r4_links(ctx, P, D)
         r5_chunk_size(ctx, P, D)
+        from . import c18
+        c18.r5_by_value(ctx, P, R="C10.R6")
     ctx.config = None
